@@ -352,7 +352,11 @@ fn random_mut(rng: &mut Rng, cx: &Ctx, set: usize, i: usize, other: usize) -> Mu
     match rng.below(18) {
         0 => Mut::Slot(w.slot + 1 + rng.below(3)),
         1 => Mut::Slot(cx.sets[other].wires[0].slot),
-        2 => Mut::Idx((w.slice_index + 1 + rng.below(5)) % 1024),
+        2 => if rng.chance(1, 2) { Mut::Idx((w.slice_index + 1 + rng.below(5)) % 1024) } else {
+            // replay under a slice index that differs in one high bit only (a commitment that packs or truncates the
+            // index would not notice)
+            Mut::Idx(w.slice_index ^ *rng.pick(&[256u64, 512, 768, 128, 64]))
+        },
         3 => Mut::Idx(1024 + rng.below(3)),
         4 => Mut::Last(1 - w.is_last),
         5 => Mut::Last(2),
@@ -660,6 +664,57 @@ fn main() {
         let p2 = probe(&mut cx, s2, 31);
         cx.rec.oracle(p2 == "InvalidShred", "conflicting-commitment-not-reported", || {
             format!("node: Alpenglow::handle_disseminator_shred received shreds of slice 1 of slot {slot} from its leader (validator {leader}) and then shred {first_conflict_shred} of a different, validly signed slice 1 of the same slot; the leader was not flagged (a further shred of the slot is answered `{p2}` by the blockstore, no InvalidBlock)")
+        });
+        let class = cx.class;
+        cx.rec.end_case(class, true);
+    }
+
+    // ---- D2: the node glue again, conflict arriving only *after* the slot's block was reconstructed completely
+    for c in 0..(if args.thorough { 8 } else { 3 }) {
+        cx.sets.clear();
+        cx.class = 0;
+        cx.rec.begin_case("node-complete");
+        let (node, epoch) = {
+            let _g = cx.rt.enter();
+            make_node(&cx.sks, &mut rng)
+        };
+        let mut slot = 5 + rng.below(1 << 20);
+        while epoch.leader(Slot::new(slot)).id == ValidatorIndex::new(0) {
+            slot += 1;
+        }
+        let leader = (0..4).find(|&k| epoch.leader(Slot::new(slot)).id == ValidatorIndex::new(k as u64)).expect("leader is one of the four");
+        let nslices = 1 + rng.below(2) as usize;
+        for j in 0..nslices {
+            let parent = if j == 0 { Some((slot - 1, rng.below(200))) } else { None };
+            cx.mk(leader, slot, j, j + 1 == nslices, parent, 8, 0, 0);
+        }
+        let target = rng.below(nslices as u64) as usize;
+        let tparent = if target == 0 { Some((slot - 1, 201 + rng.below(50))) } else { None };
+        let conflict = cx.mk(leader, slot, target, target + 1 == nslices, tparent, 8, 0, (target != 0) as u64);
+        cx.rec.step("node_new", "ok");
+        let bs = node.verif_blockstore();
+        for j in 0..nslices {
+            let mut idx: Vec<usize> = (0..64).collect();
+            rng.shuffle(&mut idx);
+            for &i in idx.iter().take(34 + rng.below(10) as usize) {
+                let sh = cx.sets[j].shreds[i].as_shred().clone();
+                let r = catch(|| cx.rt.block_on(node.verif_handle_disseminator_shred(sh)));
+                cx.rec.step(&format!("node {j} {i} {leader}"), if matches!(r, Ok(Ok(()))) { "done" } else { "panic" });
+            }
+        }
+        let complete = cx.rt.block_on(async { bs.read().await.disseminated_block_hash(Slot::new(slot)).is_some() });
+        cx.rec.count(&format!("node-complete:block-reconstructed={complete}"));
+        let first_conflict_shred = rng.below(64) as usize;
+        let sh = cx.sets[conflict].shreds[first_conflict_shred].as_shred().clone();
+        let r = catch(|| cx.rt.block_on(node.verif_handle_disseminator_shred(sh)));
+        cx.rec.step(&format!("node {conflict} {first_conflict_shred} {leader}"), if matches!(r, Ok(Ok(()))) { "done" } else { "panic" });
+        // flagged? a further genuine shred is then refused by the blockstore
+        let v = cx.sets[0].shreds[63].clone();
+        let r = cx.rt.block_on(async { bs.write().await.add_shred_from_dissemination(v).await });
+        let p2 = match r { Ok(_) => "pass".to_string(), Err(e) => match format!("{e:?}").as_str() { "Duplicate" => "pass".to_string(), k => k.to_string() } };
+        cx.rec.step(&format!("probe 0 63"), &p2);
+        cx.rec.oracle(p2 == "InvalidShred", "conflicting-commitment-not-reported", || {
+            format!("node-complete case {c}: after the node reconstructed the block of slot {slot} ({nslices} slices, complete={complete}) it received shred {first_conflict_shred} of a different, validly signed slice {target} of the same leader; the leader was not flagged (a further shred is answered `{p2}`)")
         });
         let class = cx.class;
         cx.rec.end_case(class, true);
